@@ -49,19 +49,33 @@ fn gen_batch(tier: Tier, seed: u64, b: u64) -> Vec<Value> {
     // every fourth grammar is terminal-heavy (literal concatenation, insensitive non-ASCII literals, the skipper's
     // fast path over related needle sets): the places where the generated code and the VM take different routes
     let ts = terminal_heavy_grammar();
+    let sh = stack_heavy_grammar();
+    let sl = stack_loop_grammar();
     let specs_s = proptest::collection::vec(spec_strategy(), 12);
     let mut out = vec![];
     let want = per_batch(tier);
     let mut tries = 0;
     while out.len() < want && tries < want * 4 {
         tries += 1;
-        let g = if tries % 4 == 0 { gen_one(&mut runner, &ts) } else { gen_one(&mut runner, &gs) };
+        // ... one in eight is a stack loop (pushes, a stack-consuming body under + * ? {1,3}, a later stack read) and
+        // one in eight a general stack-heavy grammar
+        let g = if tries % 4 == 0 {
+            gen_one(&mut runner, &ts)
+        } else if tries % 8 == 1 {
+            gen_one(&mut runner, &sl)
+        } else if tries % 8 == 5 {
+            gen_one(&mut runner, &sh)
+        } else {
+            gen_one(&mut runner, &gs)
+        };
         let specs = gen_one(&mut runner, &specs_s);
         let Ok(Some(p)) = prepare(&mut ctx, &g) else { continue };
         let alpha = alphabet(&p.cg);
         let mut cases = vec![];
         let mut small: Vec<String> = vec![];
-        if alpha.len() <= 4 {
+        if alpha.len() <= 2 {
+            small = enumerate(&alpha, 5);
+        } else if alpha.len() <= 4 {
             small = enumerate(&alpha, 2);
         }
         for rule in &p.rules {
